@@ -1242,3 +1242,260 @@ Lemma argmax_none x : argmax C cleb x = None <-> x = [].
 Proof using. destruct x; cbn [argmax]; split; intros H; congruence. Qed.
 
 End Parab.
+
+(* ------------------------------------------------------------------------ *)
+(* waveforms.wave_shift_corrmax: index arithmetic of the 'same'-mode correlation,
+   over the integers (exact). *)
+Section XCorrZ.
+Local Open Scope Z_scope.
+Local Notation zsum := (sumn Z 0 Z.add).
+Local Notation xc := (xcorr_same_at Z 0 Z.add Z.mul).
+Local Notation zn := Z.of_nat.
+
+Lemma zsum_S f m : zsum f (S m) = zsum f m + f m.
+Proof. reflexivity. Qed.
+
+Lemma zsum_ext f g m : (forall i, (i < m)%nat -> f i = g i) -> zsum f m = zsum g m.
+Proof.
+  induction m as [|m IH]; intros H; [reflexivity|].
+  rewrite !zsum_S, IH, H by (intros; auto with arith). reflexivity.
+Qed.
+
+Lemma zsum_zero m : zsum (fun _ => 0) m = 0.
+Proof. induction m as [|m IH]; [reflexivity|]. rewrite zsum_S, IH. reflexivity. Qed.
+
+Lemma zsum_add f g m : zsum (fun i => f i + g i) m = zsum f m + zsum g m.
+Proof. induction m as [|m IH]; [reflexivity|]. rewrite !zsum_S, IH. ring. Qed.
+
+Lemma zsum_le f g m : (forall i, (i < m)%nat -> f i <= g i) -> zsum f m <= zsum g m.
+Proof.
+  induction m as [|m IH]; intros H; [cbn; lia|].
+  rewrite !zsum_S. pose proof (H m ltac:(lia)). pose proof (IH ltac:(intros; apply H; lia)). lia.
+Qed.
+
+Lemma zsum_swap (f : nat -> nat -> Z) a b :
+  zsum (fun i => zsum (fun j => f i j) b) a = zsum (fun j => zsum (fun i => f i j) a) b.
+Proof.
+  induction a as [|a IH]; cbn [sumn].
+  - now rewrite zsum_zero.
+  - rewrite IH, <- zsum_add. reflexivity.
+Qed.
+
+Lemma zsum_single f m i0 : (i0 < m)%nat -> (forall i, (i < m)%nat -> i <> i0 -> f i = 0) ->
+  zsum f m = f i0.
+Proof.
+  induction m as [|m IH]; intros Hi H; [lia|]. rewrite zsum_S.
+  destruct (Nat.eq_dec i0 m) as [->|Hne].
+  - rewrite (zsum_ext f (fun _ => 0)) by (intros; apply H; lia). rewrite zsum_zero. lia.
+  - rewrite IH by (try lia; intros; apply H; lia). rewrite (H m) by lia. lia.
+Qed.
+
+Lemma xc_ext N a a' b b' i :
+  (forall j, (j < N)%nat -> a j = a' j) -> (forall j, (j < N)%nat -> b j = b' j) ->
+  xc N a b i = xc N a' b' i.
+Proof.
+  intros Ha Hb. unfold xcorr_same_at. apply zsum_ext. intros l Hl. cbv zeta.
+  destruct ((0 <=? zn l + zn i - zn (N / 2)) && (zn l + zn i - zn (N / 2) <? zn N)) eqn:E; [|reflexivity].
+  apply andb_prop in E. destruct E as [E1 E2]. apply Z.leb_le in E1. apply Z.ltb_lt in E2.
+  rewrite Ha, Hb by lia. reflexivity.
+Qed.
+
+(* the zero-lag entry sits at index floor(N/2) for EVERY N and carries the energy *)
+Lemma xc_zero_lag N a : xc N a a (N / 2) = zsum (fun l => a l * a l) N.
+Proof.
+  unfold xcorr_same_at. apply zsum_ext. intros l Hl. cbv zeta.
+  replace (zn l + zn (N / 2) - zn (N / 2)) with (zn l) by lia.
+  destruct (Z.leb_spec 0 (zn l)); [|lia]. destruct (Z.ltb_spec (zn l) (zn N)); [|lia].
+  cbn [andb]. now rewrite Nat2Z.id.
+Qed.
+
+Definition impulse (q : nat) (A : Z) (j : nat) : Z := if (j =? q)%nat then A else 0.
+Definition impulse_list (N q : nat) (A : Z) : list Z := map (impulse q A) (seq 0 N).
+
+(* correlation of an impulse at q with an impulse at p2 = q + m: a single entry A^2 at
+   index floor(N/2) - m *)
+Lemma xc_impulse N q p2 A i : (q < N)%nat -> (p2 < N)%nat ->
+  xc N (impulse q A) (impulse p2 A) i =
+  if (zn i =? zn (N / 2) - (zn p2 - zn q)) then A * A else 0.
+Proof.
+  intros Hq Hp. unfold xcorr_same_at. rewrite (zsum_single _ N p2 Hp).
+  - cbv zeta. unfold impulse. rewrite Nat.eqb_refl.
+    destruct (Z.eqb_spec (zn i) (zn (N / 2) - (zn p2 - zn q))) as [E|E].
+    + replace (zn p2 + zn i - zn (N / 2)) with (zn q) by lia.
+      destruct (Z.leb_spec 0 (zn q)); [|lia]. destruct (Z.ltb_spec (zn q) (zn N)); [|lia].
+      cbn [andb]. now rewrite Nat2Z.id, Nat.eqb_refl.
+    + destruct ((0 <=? zn p2 + zn i - zn (N / 2)) && (zn p2 + zn i - zn (N / 2) <? zn N)) eqn:E2; [|reflexivity].
+      apply andb_prop in E2. destruct E2 as [E1 E2]. apply Z.leb_le in E1.
+      destruct (Nat.eqb_spec (Z.to_nat (zn p2 + zn i - zn (N / 2))) q); [lia|]. lia.
+  - intros l Hl Hne. cbv zeta. unfold impulse at 2.
+    destruct (Nat.eqb_spec l p2); [contradiction|].
+    destruct ((0 <=? zn l + zn i - zn (N / 2)) && (zn l + zn i - zn (N / 2) <? zn N)); lia.
+Qed.
+
+Lemma nth_map_seq0 (f : nat -> Z) m k : (k < m)%nat -> nth k (map f (seq 0 m)) 0 = f k.
+Proof.
+  intros Hk. rewrite (nth_indep _ 0 (f 0%nat)) by (now rewrite map_length, seq_length).
+  rewrite (map_nth f (seq 0 m) 0%nat k), seq_nth by exact Hk. reflexivity.
+Qed.
+
+Lemma impulse_list_length N q A : length (impulse_list N q A) = N.
+Proof. unfold impulse_list. now rewrite map_length, seq_length. Qed.
+
+Lemma xcorr_impulse_lists N q p2 A i0 : (q < N)%nat -> (p2 < N)%nat ->
+  zn i0 = zn (N / 2) - (zn p2 - zn q) ->
+  xcorr_same Z 0 Z.add Z.mul (impulse_list N q A) (impulse_list N p2 A) = impulse_list N i0 (A * A).
+Proof.
+  intros Hq Hp Hi0. unfold xcorr_same. rewrite impulse_list_length. unfold impulse_list at 3.
+  apply map_ext_in. intros i Hi. apply in_seq in Hi.
+  rewrite (xc_ext N _ (impulse q A) _ (impulse p2 A) i).
+  - rewrite xc_impulse by assumption. unfold impulse.
+    destruct (Z.eqb_spec (zn i) (zn (N / 2) - (zn p2 - zn q))); destruct (Nat.eqb_spec i i0); try reflexivity; lia.
+  - intros j Hj. unfold nthC, impulse_list. now apply nth_map_seq0.
+  - intros j Hj. unfold nthC, impulse_list. now apply nth_map_seq0.
+Qed.
+
+Lemma zle_refl a : (a <=? a) = true. Proof. apply Z.leb_refl. Qed.
+Lemma zle_trans a b c : (a <=? b) = true -> (b <=? c) = true -> (a <=? c) = true.
+Proof. rewrite !Z.leb_le. lia. Qed.
+Lemma zle_total a b : (a <=? b) = false -> (b <=? a) = true.
+Proof. rewrite Z.leb_gt, Z.leb_le. lia. Qed.
+
+Lemma argmax_impulse_list N i0 B : (i0 < N)%nat -> 0 < B ->
+  argmax Z Z.leb (impulse_list N i0 B) = Some i0.
+Proof.
+  intros Hi HB. destruct (argmax Z Z.leb (impulse_list N i0 B)) as [i|] eqn:E.
+  - f_equal.
+    destruct (argmax_spec Z 0 Z.leb zle_refl zle_trans zle_total _ _ E) as (Hlt & Hall & _).
+    rewrite impulse_list_length in *. specialize (Hall i0 Hi). apply Z.leb_le in Hall.
+    unfold impulse_list in Hall. rewrite !nth_map_seq0 in Hall by assumption.
+    unfold impulse in Hall. rewrite Nat.eqb_refl in Hall.
+    destruct (Nat.eqb_spec i i0); [assumption|lia].
+  - apply argmax_none in E. pose proof (impulse_list_length N i0 B) as HL. rewrite E in HL. cbn in HL. lia.
+Qed.
+
+(* An impulse and its copy delayed by m samples (any sign), any length N of either
+   parity: the 'same'-mode correlation is a single peak at index floor(N/2) - m, np.argmax
+   finds it, and floor(N/2) - argmax gives back exactly m. *)
+Lemma corr_peak_at_lag N q (m A : Z) : A <> 0 -> (q < N)%nat ->
+  0 <= zn q + m < zn N -> 0 <= zn (N / 2) - m < zn N ->
+  let a := impulse_list N q A in
+  let b := impulse_list N (Z.to_nat (zn q + m)) A in
+  let i0 := Z.to_nat (zn (N / 2) - m) in
+  xcorr_same Z 0 Z.add Z.mul a b = impulse_list N i0 (A * A) /\
+  argmax Z Z.leb (xcorr_same Z 0 Z.add Z.mul a b) = Some i0 /\
+  int_delay_of_peak N i0 = m.
+Proof.
+  intros HA Hq Hp Hi. cbv zeta.
+  assert (E : xcorr_same Z 0 Z.add Z.mul (impulse_list N q A) (impulse_list N (Z.to_nat (zn q + m)) A)
+              = impulse_list N (Z.to_nat (zn (N / 2) - m)) (A * A)).
+  { apply xcorr_impulse_lists; lia. }
+  split; [exact E|]. split.
+  - rewrite E. apply argmax_impulse_list; [lia|nia].
+  - unfold int_delay_of_peak. lia.
+Qed.
+
+(* ---- Cauchy-Schwarz: a finitely supported signal and its delayed copy ---- *)
+Definition inr (N : nat) (k : Z) : bool := (0 <=? k) && (k <? zn N).
+
+Lemma zsum_pick (f : nat -> Z) N t :
+  zsum (fun j => if (zn j =? t) then f j else 0) N = if inr N t then f (Z.to_nat t) else 0.
+Proof.
+  unfold inr. destruct ((0 <=? t) && (t <? zn N)) eqn:E.
+  - apply andb_prop in E. destruct E as [E1 E2]. apply Z.leb_le in E1. apply Z.ltb_lt in E2.
+    rewrite (zsum_single _ N (Z.to_nat t)).
+    + destruct (Z.eqb_spec (zn (Z.to_nat t)) t); [reflexivity|lia].
+    + lia.
+    + intros j Hj Hne. destruct (Z.eqb_spec (zn j) t); [lia|reflexivity].
+  - rewrite (zsum_ext _ (fun _ => 0)); [apply zsum_zero|].
+    intros j Hj. destruct (Z.eqb_spec (zn j) t); [|reflexivity].
+    apply andb_false_iff in E. destruct E as [E|E]; [apply Z.leb_gt in E|apply Z.ltb_ge in E]; lia.
+Qed.
+
+Lemma reindex_le (f : nat -> Z) N M d : (forall j, 0 <= f j) ->
+  zsum (fun l => if inr N (zn l + d) then f (Z.to_nat (zn l + d)) else 0) M <= zsum f N.
+Proof.
+  intros Hf.
+  rewrite (zsum_ext _ (fun l => zsum (fun j => if (zn j =? zn l + d) then f j else 0) N))
+    by (intros l Hl; now rewrite zsum_pick).
+  rewrite zsum_swap. apply zsum_le. intros j Hj.
+  rewrite (zsum_ext _ (fun l => if (zn l =? zn j - d) then f j else 0)).
+  - rewrite (zsum_pick (fun _ => f j) M (zn j - d)). destruct (inr M (zn j - d)); [lia|apply Hf].
+  - intros l Hl. destruct (Z.eqb_spec (zn j) (zn l + d)); destruct (Z.eqb_spec (zn l) (zn j - d)); try reflexivity; lia.
+Qed.
+
+Lemma zsum_scale c f m : zsum (fun i => c * f i) m = c * zsum f m.
+Proof. induction m as [|m IH]; [cbn; lia|]. rewrite !zsum_S, IH. ring. Qed.
+
+(* every entry of the correlation is bounded by the mean of the two energies *)
+Lemma xc_bound N a b i :
+  2 * xc N a b i <= zsum (fun l => a l * a l) N + zsum (fun l => b l * b l) N.
+Proof.
+  set (d := zn i - zn (N / 2)).
+  assert (E : xc N a b i = zsum (fun l => if inr N (zn l + d) then a (Z.to_nat (zn l + d)) * b l else 0) N).
+  { unfold xcorr_same_at. apply zsum_ext. intros l Hl. cbv zeta. unfold inr, d.
+    replace (zn l + (zn i - zn (N / 2))) with (zn l + zn i - zn (N / 2)) by lia. reflexivity. }
+  rewrite E, <- zsum_scale.
+  pose proof (reindex_le (fun l => a l * a l) N N d ltac:(intros; nia)) as Hr. cbv beta in Hr.
+  assert (H1 : zsum (fun l => 2 * (if inr N (zn l + d) then a (Z.to_nat (zn l + d)) * b l else 0)) N
+               <= zsum (fun l => (if inr N (zn l + d) then a (Z.to_nat (zn l + d)) * a (Z.to_nat (zn l + d)) else 0)
+                                 + b l * b l) N).
+  { assert (AG : forall x y : Z, 2 * (x * y) <= x * x + y * y)
+      by (intros x y; pose proof (Z.square_nonneg (x - y)); nia).
+    apply zsum_le. intros l Hl. destruct (inr N (zn l + d)); [apply AG|].
+    pose proof (Z.square_nonneg (b l)). nia. }
+  rewrite zsum_add in H1. lia.
+Qed.
+
+(* b = a delayed by m samples with nothing pushed out of the window (b l = a (l - m), zero
+   where l - m falls outside): same energy, the entry at floor(N/2) - m equals it, and no
+   entry exceeds it — the correlation peaks at the lag, for every N. *)
+Lemma corr_delayed_copy_peak N a b (m : Z) :
+  (forall l, (l < N)%nat -> b l = if inr N (zn l - m) then a (Z.to_nat (zn l - m)) else 0) ->
+  zsum (fun l => b l * b l) N = zsum (fun l => a l * a l) N ->
+  0 <= zn (N / 2) - m < zn N ->
+  xc N a b (Z.to_nat (zn (N / 2) - m)) = zsum (fun l => a l * a l) N /\
+  forall i, xc N a b i <= xc N a b (Z.to_nat (zn (N / 2) - m)).
+Proof.
+  intros Hb He Hi.
+  assert (Hpk : xc N a b (Z.to_nat (zn (N / 2) - m)) = zsum (fun l => a l * a l) N).
+  { rewrite <- He. unfold xcorr_same_at. apply zsum_ext. intros l Hl. cbv zeta.
+    rewrite Z2Nat.id by lia.
+    replace (zn l + (zn (N / 2) - m) - zn (N / 2)) with (zn l - m) by lia.
+    rewrite (Hb l Hl). unfold inr.
+    destruct ((0 <=? zn l - m) && (zn l - m <? zn N)); ring. }
+  split; [exact Hpk|]. intros i. rewrite Hpk. pose proof (xc_bound N a b i). lia.
+Qed.
+
+End XCorrZ.
+
+(* re-alignment with an integer delay: rolling back by m undoes a roll by m *)
+Section RollBack.
+Variable C : Type.
+Variable c0 : C.
+
+Lemma roll_list_length n m (x : list C) : length (roll_list C c0 n m x) = n.
+Proof. unfold roll_list. now rewrite map_length, seq_length. Qed.
+
+Lemma resync_undoes_roll (m : Z) (x : list C) : (1 <= length x)%nat ->
+  resync_int C c0 m (roll_list C c0 (length x) m x) = x.
+Proof.
+  intros Hn. unfold resync_int. rewrite roll_list_length.
+  set (n := length x) in *.
+  apply (nth_ext _ _ c0 c0); [now rewrite roll_list_length|].
+  intros j Hj. rewrite roll_list_length in Hj. unfold roll_list at 1.
+  rewrite (nth_indep _ c0 (roll_fun C n (- m) (nthC C c0 (roll_list C c0 n m x)) 0%nat))
+    by (now rewrite map_length, seq_length).
+  rewrite (map_nth (roll_fun C n (- m) (nthC C c0 (roll_list C c0 n m x))) (seq 0 n) 0%nat j), seq_nth by exact Hj.
+  cbn [Nat.add]. unfold roll_fun at 1, nthC at 1.
+  assert (Hb : (Z.to_nat ((Z.of_nat j - - m) mod Z.of_nat n) < n)%nat).
+  { pose proof (Z.mod_pos_bound (Z.of_nat j - - m) (Z.of_nat n) ltac:(lia)). lia. }
+  unfold roll_list.
+  rewrite (nth_indep _ c0 (roll_fun C n m (nthC C c0 x) 0%nat)) by (now rewrite map_length, seq_length).
+  rewrite (map_nth (roll_fun C n m (nthC C c0 x)) (seq 0 n) 0%nat), seq_nth by exact Hb.
+  cbn [Nat.add]. unfold roll_fun, nthC. f_equal.
+  rewrite Z2Nat.id by (pose proof (Z.mod_pos_bound (Z.of_nat j - - m) (Z.of_nat n) ltac:(lia)); lia).
+  rewrite Zminus_mod_idemp_l. replace (Z.of_nat j - - m - m)%Z with (Z.of_nat j) by lia.
+  rewrite Z.mod_small by lia. apply Nat2Z.id.
+Qed.
+
+End RollBack.
